@@ -57,6 +57,12 @@ CHECKS = {
         text="ThrottleExecutor over a manual base (completion order is a program choice) or a thread pool, with a recording tap below it: at every hand-over the number handed to the delegate and not yet done must be <= the bound in force (static, or the recent values of a scripted count callable; None unlimited; a raise keeps the last value); delegate submissions follow submit order; whenever virtual time is about to advance nothing may be queued while capacity is free (so no +2 s/+30 s hand-overs); block=True submit() works for every count and is parked only while the queue holds >= count entries.",
         design_ref="DESIGN.md section 4 (C07)", note=ENGINE_NOTE),
 
+    "C09": dict(
+        category="exploration",
+        technique="property-based testing with an exact virtual clock: Hypothesis-drawn sets of futures with mixed default/per-call timeouts, submission times, completions and user cancels (plus exhaustive single-pre-emption sweeps of catalogue programs); oracle = deadline windows over the recorded virtual times of every cancel() reaching the returned futures",
+        text="TimeoutExecutor over a manual base (optionally behind a blocking throttle so that the delegate's submit() consumes time) and f_timeout through the shared executor: for each future with deadline window [delegate-submit-return, submit-return]+timeout, the timeout thread must not call cancel() before the window, must call it exactly once inside the window (+0.01 s) if the future is still pending, and not at all if it finished before; outcomes of futures finished in time are kept.",
+        design_ref="DESIGN.md section 4 (C09)", note=ENGINE_NOTE + " cancel() calls on library futures are observed by wrapping _Future.cancel from the harness (lib/world.py), not by a source hook."),
+
     "C14": dict(
         category="exploration",
         technique="model-based property testing: and/or fold over admissible linearisations of the completion events; exhaustive outcome x completion-order enumeration + Hypothesis-drawn concurrent completions under the deterministic scheduler",
